@@ -2,6 +2,7 @@ import Driver.Proto
 import Driver.OpsGen
 import XsdataModel.Gen.Attrs
 import XsdataModel.Gen.DtdAttrs
+import XsdataModel.Gen.EnumDefault
 open Lean Proto Py Xs.Gen
 
 namespace OpsGenAttrs
@@ -72,6 +73,12 @@ def run (op : String) (a : Json) : Option (Except String Json) :=
         pure ({ default := k, value := ← dOptS (fld j "value") } : DtdAttrDecl)
       if op == "gen.dtd_attr" then pure <| ok (jList (fun d => jGAttr (dtdAttr d)) decls)
       else pure <| ok (jList (fun d => jField (dtdAttrField d)) decls)
+  | "gen.enum_default" => some do
+      let members ← (← asArr (fld a "members")).mapM fun j => do
+        pure ({ value := ← asStr (fld j "value"), name := ← asStr (fld j "name") } : EnumMember)
+      let default ← asStr (fld a "default")
+      pure <| ok (jObj [("placeholder", jOpt (jList jStr) (enumPlaceholder members default)),
+                        ("values", jOpt (jList (jOpt jStr)) (enumDefaultValues members default))])
   | _ => none
 
 end OpsGenAttrs
